@@ -23,6 +23,16 @@ GENC = "pyjelly.integrations.generic.serialize:GenericSinkTermEncoder"
 _te_fields = dict(lookup_preset=OBJ(PRESET), names=OBJ(LENC), prefixes=OBJ(LENC), datatypes=OBJ(LENC))
 shape(TENC, fields=_te_fields)
 shape(GENC, fields=_te_fields)
+RENC = "pyjelly.integrations.rdflib.serialize:RDFLibTermEncoder"   # verified against the same term-level contract (rdflib_serialize.py)
+shape(RENC, fields=_te_fields)
+
+
+def encoder_universe(E: Any, ts: list) -> Any:
+    """terms the encoder's integration can be handed at all: rdflib has no quoted-triple term"""
+    if E.cls.name == "RDFLibTermEncoder":
+        return And(*[Not(GTerm.is_QTriple(t)) for t in ts])
+    return True
+
 
 U32 = 2 ** 32
 
@@ -108,7 +118,7 @@ def lru_step(o: Any, d: Any, size: Any, by: Any) -> Any:
     return And(d.mark == o.mark, d.t <= o.t + by, Implies(o.t + by <= size, od_stable(o, d)))
 
 
-@contract(f"{SE}:TermEncoder.encode_iri_indices", serves=["C03", "C01", "C19", "C18", "C05"])
+@contract(f"{SE}:TermEncoder.encode_iri_indices", serves=["C03", "C01", "C19", "C18", "C05", "C02"])
 class _encode_iri_indices:
     params = {"self": OBJ(TENC), "iri_string": STR}
     result = TUP(ROWS_UPTO(2), INT, INT)
@@ -144,7 +154,7 @@ from pyvc.contract import MSG  # noqa: E402
 from pyvc.spec import msg_written, which_tag  # noqa: E402
 
 
-@contract(f"{SE}:TermEncoder.encode_iri", serves=["C03", "C01", "C19", "C18", "C14"])
+@contract(f"{SE}:TermEncoder.encode_iri", serves=["C03", "C01", "C19", "C18", "C14", "C02"])
 class _encode_iri:
     params = {"self": OBJ(TENC), "iri_string": STR, "iri": MSG("RdfIri")}
     result = ROWS_UPTO(2)
@@ -193,7 +203,7 @@ def lit_needs_dt(dt: Any) -> Any:
     return And(Not(is_none(dt)), opt_val(dt) != "", opt_val(dt) != XSD_STRING)
 
 
-@contract(f"{SE}:TermEncoder.encode_literal", serves=["C03", "C01", "C19", "C18", "C20", "C05"])
+@contract(f"{SE}:TermEncoder.encode_literal", serves=["C03", "C01", "C19", "C18", "C20", "C05", "C02"])
 class _encode_literal:
     params = {"self": OBJ(TENC), "lex": STR, "language": OPT(STR), "datatype": OPT(STR), "literal": MSG("RdfLiteral")}
     result = ROWS_UPTO(1)
@@ -563,13 +573,14 @@ def decode_spo_spec(st: Any, E: Any, lrP0: Any, lrN0: Any, rep: list, terms: lis
     return out
 
 
-@contract(f"{SE}:encode_spo", serves=["C03", "C01", "C19", "C18", "C20"])
+@contract(f"{SE}:encode_spo", serves=["C03", "C01", "C19", "C18", "C20", "C02"])
 class _encode_spo_free:
     """s, p, o of one statement.  Premise (C01): each enabled table still has room for the terms that get encoded."""
     params = {"terms": ITER(ADTS("gterm"), 4), "term_encoder": OBJ(GENC), "repeated_terms": LISTOF(OPT(ADTS("gterm")), 4),
               "statement": MSG("RdfTriple")}
     result = ROWS
     shards = 10
+    variants = [{}, {"term_encoder": OBJ(RENC)}]      # the same proof for either integration's term encoder
     advances = {"terms": 3}
     modifies = ["terms", "term_encoder.names", "term_encoder.prefixes", "term_encoder.datatypes", "repeated_terms", "statement"]
     tags = {"subject-elided-iff-repeated": ["C19", "C03", "C01"], "predicate-elided-iff-repeated": ["C19", "C03", "C01"],
@@ -584,7 +595,8 @@ class _encode_spo_free:
         ts = [x for x in list(e.terms.items)[:3]]
         rep = e.repeated_terms.items[:3]
         st = e.statement
-        return And(wf_te(e.term_encoder), which_unset(st, "subject"), which_unset(st, "predicate"), which_unset(st, "object"))
+        return And(wf_te(e.term_encoder), which_unset(st, "subject"), which_unset(st, "predicate"), which_unset(st, "object"),
+                   encoder_universe(e.term_encoder, ts))
 
     def raises(e):
         ts = list(e.terms.items)[:3]
@@ -653,18 +665,19 @@ def stmt_room(E: Any, rep: list, ts: list) -> Any:
     return And(n_uses <= N.max_size, Or(P.max_size == 0, n_uses <= P.max_size), Or(d_uses == 0, D.max_size == 0, d_uses <= D.max_size))
 
 
-@contract(f"{SE}:encode_triple", serves=["C03", "C01", "C19", "C18", "C20"])
+@contract(f"{SE}:encode_triple", serves=["C03", "C01", "C19", "C18", "C20", "C02"])
 class _encode_triple:
     params = {"terms": TUP(ADTS("gterm"), ADTS("gterm"), ADTS("gterm")), "term_encoder": OBJ(GENC),
               "repeated_terms": LISTOF(OPT(ADTS("gterm")), 4)}
     result = ROWS
     shards = 4
+    variants = [{}, {"term_encoder": OBJ(RENC)}]
     modifies = ["term_encoder.names", "term_encoder.prefixes", "term_encoder.datatypes", "repeated_terms"]
     tag_suffix = {"@undersized-tables": ["C18"]}
     tags = {"subject-elided-iff-repeated": ["C19", "C03", "C01"], "predicate-elided-iff-repeated": ["C19", "C03", "C01"],
             "object-elided-iff-repeated": ["C19", "C03", "C01"]}
 
-    def requires(e): return wf_te(e.term_encoder)
+    def requires(e): return And(wf_te(e.term_encoder), encoder_universe(e.term_encoder, list(e.terms.items)))
 
     def ghost_enter(e): _reset_marks(e.term_encoder)
 
